@@ -468,13 +468,24 @@ func cmdCheck(args []string) {
 		var mu sync.Mutex
 		var out []tr
 		var wg3 sync.WaitGroup
-		sem := make(chan struct{}, 4)
+		sem := make(chan struct{}, 12)
+		var filt *regexp.Regexp
+		if f := os.Getenv("GOVC_TRIAGE_FILTER"); f != "" {
+			filt = regexp.MustCompile(f)
+		}
 		for _, r := range results {
 			if r.res.Ex == nil {
 				continue
 			}
 			for _, v := range r.vs {
 				if v.Obl.Cover || v.Status == "unsat" || !panicKinds[v.Obl.Kind] {
+					continue
+				}
+				// only models count: a timeout has no input to replay
+				if v.Status != "sat" {
+					continue
+				}
+				if filt != nil && !filt.MatchString(v.Obl.Name) {
 					continue
 				}
 				wg3.Add(1)
@@ -484,6 +495,9 @@ func cmdCheck(args []string) {
 					defer func() { <-sem }()
 					sub, _ := os.MkdirTemp(tmp, "tri")
 					rr := tryReplay(P, r.res.Ex, v.Obl, v, sub, seed)
+					if rr != nil && rr.Confirmed {
+						fmt.Fprintf(os.Stderr, "confirmed-so-far %s [%s]\n", v.Obl.Name, v.Obl.SrcPos)
+					}
 					mu.Lock()
 					out = append(out, tr{v.Obl.Name + " [" + v.Obl.SrcPos + "]", rr})
 					mu.Unlock()
@@ -752,7 +766,7 @@ func cmdCheck(args []string) {
 		"Go type safety (typed, field-split heap; no unsafe aliasing in the code under contract)",
 		"SMT solvers z3 4.8.12 / z3 5.1.0 / cvc5 1.0.3 are sound",
 		"slice and string lengths, capacities and offsets are at most 2^47",
-		"govc's own translation (DESIGN.md §2): goroutine spawns not followed, channels/select/maps/floats havocked",
+		"govc's own translation (DESIGN.md §2): goroutine spawns not followed, channels/select/non-local maps havocked, float64 is IEEE-754 binary64 (SMT FloatingPoint), float32 uninterpreted",
 	}, tb...)
 	samples := []interface{}{}
 	for i, r := range records {
